@@ -381,11 +381,11 @@ fn answer(a: &[&str]) -> String {
         //   the same operations as in the C34 case over a writer / transport whose k-th call fails (k = 0: never):
         //   -> "ERR" (the operation reported an error) | "OK" (it reported success) ; the caller knows whether call k was reached
         "io_fail" => {
-            struct FailW { n: usize, k: usize, failed: bool, out: Vec<u8> }
+            struct FailW { n: usize, k: usize, failed: bool, out: Vec<u8>, zero: bool }
             impl std::io::Write for FailW {
                 fn write(&mut self, buf: &[u8]) -> std::io::Result<usize> {
                     self.n += 1;
-                    if self.k != 0 && self.n == self.k { self.failed = true; return Err(std::io::Error::new(std::io::ErrorKind::Other, "injected")); }
+                    if self.k != 0 && self.n == self.k { self.failed = true; if self.zero { return Ok(0); } return Err(std::io::Error::new(std::io::ErrorKind::Other, "injected")); }
                     self.out.extend_from_slice(buf); Ok(buf.len())
                 }
                 fn flush(&mut self) -> std::io::Result<()> { Ok(()) }
@@ -410,7 +410,7 @@ fn answer(a: &[&str]) -> String {
                         DataToken::ItemStart { len: Length(3) }, DataToken::ItemValue(vec![1, 2, 3]), DataToken::ItemEnd, DataToken::SequenceEnd,
                     ];
                     let opts = DataSetWriterOptions::default().explicit_length_sq_item_strategy(if nochange { ExplicitLengthSqItemStrategy::NoChange } else { ExplicitLengthSqItemStrategy::SetUndefined });
-                    let mut w = FailW { n: 0, k, failed: false, out: vec![] };
+                    let mut w = FailW { n: 0, k, failed: false, out: vec![], zero: a.len() > 5 && a[5] == "zero" };
                     let mut result = "OK";
                     macro_rules! go { ($enc:expr) => {{
                         let mut dw = DataSetWriter::new_with_options(&mut w, dicom_encoding::encode::EncoderFor::new($enc), opts);
@@ -432,7 +432,7 @@ fn answer(a: &[&str]) -> String {
                         user_variables: vec![UserVariableItem::MaxLength(16384), UserVariableItem::ImplementationClassUID("1.2".into()),
                                              UserVariableItem::ScuScpRoleSelectionSubItem("1.2".into(), RequestorRoles { scu: true, scp: false }), UserVariableItem::ImplementationVersionName("V".into())],
                     });
-                    let mut w = FailW { n: 0, k, failed: false, out: vec![] };
+                    let mut w = FailW { n: 0, k, failed: false, out: vec![], zero: false };
                     let r = write_pdu(&mut w, &pdu);
                     format!("{} failed={} calls={}", if r.is_ok() { "OK" } else { "ERR" }, w.failed, w.n)
                 }
